@@ -1304,7 +1304,11 @@ def build_cmap_format4(mapping: Dict[int, int], rng) -> bytes:
             deltas.append((gids[0] - st) & 0xFFFF)
             offsets.append(None)
         else:
-            d = rng.choice([0, 0, 3, 0xFFF0])
+            present = [g for g in gids if g is not None]
+            # idDelta values incl. ones for which (array value + idDelta) leaves 16 bits and must wrap around:
+            # a positive delta above the smallest glyph id, and a negative one (two's complement)
+            d = rng.choice([0, 0, 3, 0xFFF0, (min(present) + 1 + rng.randint(0, 20)) & 0x7FFF,
+                            (max(present) + 1) & 0x7FFF, 0x8000 + rng.randint(0, 0x7FF0)])
             if any(g is not None and (g - d) & 0xFFFF == 0 for g in gids):
                 d = 0
             deltas.append(d)
@@ -1581,7 +1585,37 @@ def gen_doc(rng) -> Dict[str, Any]:
                 items.append(rng.choice([-120, 250, 1000, -33.5]))
         shows.append(items)
     cfg["shows"] = shows
+    # a second Type0 font over the SAME descendant CIDFont object, with another Encoding / ToUnicode
+    # (subset re-encodings, -H / -V variants of one CIDFont)
+    cfg["second"] = None
+    if rng.random() < 0.35:
+        sec: Dict[str, Any] = {"enc_kind": "name", "tu": None}
+        if width:
+            pool = IDENT2 if width == 2 else IDENT1
+            sec["enc"] = rng.choice(pool)
+            t = rng.random()
+            if t < 0.6:
+                sec["tu"] = {"sections": [sec_word(s) for s in gen_sections(rng, widths=(width,), nsec=rng.randint(1, 2))]}
+            elif t < 0.75:
+                sec["tu"] = {"name": "Identity-H"}
+        else:
+            other = cfg["enc"][:-1] + ("V" if cfg["enc"].endswith("H") else "H")
+            sec["enc"] = other if other in set(all_cmap_names()) else cfg["enc"]
+        if sec["enc"].endswith("V") and cfg.get("w2") is None and rng.random() < 0.7:
+            cfg["w2"] = [list(e) for e in gen_w2_entries(rng)]
+        if not sec["enc"].endswith("V") and cfg.get("w") is None and rng.random() < 0.7:
+            cfg["w"] = [list(e) for e in gen_w_entries(rng)]
+        sec["shows"] = [list(items) for items in shows[:2]]       # the same strings, now shown in the second font
+        sec["order"] = rng.choice(["after", "before"])
+        if not (sec["enc"] == cfg["enc"] and sec["tu"] == cfg["tu"]):
+            cfg["second"] = sec
     return cfg
+
+
+def second_cfg(cfg):
+    """The configuration of the second font as a stand-alone document configuration."""
+    sec = cfg["second"]
+    return dict(cfg, enc=sec["enc"], enc_kind=sec["enc_kind"], tu=sec["tu"], shows=sec["shows"], second=None)
 
 
 def norm_went(e):
@@ -1625,15 +1659,35 @@ def doc_pdf(cfg) -> bytes:
         extra[9] = Stream({}, ttf_bytes(cfg["ttf"]))
         cid["CIDToGIDMap"] = "Identity"
     extra[4] = t0
+    fonts = {"F1": Ref(4)}
     from harness.pdfwriter import ser
-    c = b"BT /F1 " + ser(cfg["fs"]) + b" Tf " + b" ".join(ser(x) for x in cfg["tm"]) + b" Tm\n"
-    for items in cfg["shows"]:
-        if len(items) == 1 and isinstance(items[0], str):
-            c += b"<" + items[0].encode() + b"> Tj\n"
-        else:
-            c += b"[" + b" ".join((b"<" + it.encode() + b">") if isinstance(it, str) else ser(it) for it in items) + b"] TJ\n"
-    c += b"ET\n"
-    return simple_doc(c, resources={"Font": {"F1": Ref(4)}}, extra_objs=extra)
+
+    def block(name: bytes, shows) -> bytes:
+        c = b"BT /" + name + b" " + ser(cfg["fs"]) + b" Tf " + b" ".join(ser(x) for x in cfg["tm"]) + b" Tm\n"
+        for items in shows:
+            if len(items) == 1 and isinstance(items[0], str):
+                c += b"<" + items[0].encode() + b"> Tj\n"
+            else:
+                c += b"[" + b" ".join((b"<" + it.encode() + b">") if isinstance(it, str) else ser(it)
+                                      for it in items) + b"] TJ\n"
+        return c + b"ET\n"
+
+    content = block(b"F1", cfg["shows"])
+    sec = cfg.get("second")
+    if sec:
+        t2: Dict[str, Any] = {"Type": "Font", "Subtype": "Type0", "BaseFont": "VerifFont", "DescendantFonts": [Ref(5)]}
+        t2["Encoding"] = sec["enc"]
+        if sec.get("tu"):
+            if "name" in sec["tu"]:
+                t2["ToUnicode"] = sec["tu"]["name"]
+            else:
+                t2["ToUnicode"] = Ref(16)
+                extra[16] = Stream({}, toks_stream(render_sections([parse_sec_word(w) for w in sec["tu"]["sections"]])))
+        extra[14] = t2
+        fonts["F2"] = Ref(14)
+        b2 = block(b"F2", sec["shows"])
+        content = content + b2 if sec.get("order", "after") == "after" else b2 + content
+    return simple_doc(content, resources={"Font": fonts}, extra_objs=extra)
 
 
 def impl_glyphs(pdf: bytes):
@@ -1644,7 +1698,7 @@ def impl_glyphs(pdf: bytes):
     from pdfminer.pdfpage import PDFPage
     from pdfminer.pdfparser import PDFParser
     doc = PDFDocument(PDFParser(io.BytesIO(pdf)))
-    rm = PDFResourceManager(caching=False)
+    rm = PDFResourceManager()         # font caching on, as every caller of the high-level API gets it
     dev = PDFPageAggregator(rm, laparams=None)
     it = PDFPageInterpreter(rm, dev)
     out = []
@@ -1681,6 +1735,17 @@ def segment_codes(cfg, data: bytes) -> Optional[List[Tuple[int, int]]]:
 
 
 def doc_expect(cfg):
+    """Expected glyphs of the whole document (first font's block and, if present, the second font's)."""
+    first = doc_expect_one(cfg)
+    if first is None or not cfg.get("second"):
+        return first
+    second = doc_expect_one(second_cfg(cfg))
+    if second is None:
+        return None
+    return first + second if cfg["second"].get("order", "after") == "after" else second + first
+
+
+def doc_expect_one(cfg):
     """Expected glyphs: list of (acceptable texts (set) , adv, e, f); None outside the spec's domain."""
     vertical = cfg["enc"].endswith("V")
     fs = F(cfg["fs"])
@@ -1767,7 +1832,9 @@ def doc_compare(cfg):
         return "outside"
     got, e = call(lambda: impl_glyphs(doc_pdf(cfg)))
     ident = cfg["enc"] in IDENT1 + IDENT2
-    tags = {"group": "doc", "enc": cfg["enc"], "identity_cmap": ident,
+    if cfg.get("second"):
+        ident = ident and cfg["second"]["enc"] in IDENT1 + IDENT2
+    tags = {"group": "doc", "enc": cfg["enc"], "two_fonts": bool(cfg.get("second")), "identity_cmap": ident,
             "tu_stream": bool(cfg.get("tu") and "sections" in cfg["tu"]), "vertical": cfg["enc"].endswith("V"),
             "odd": ident and any(isinstance(it, str) and (len(it) // 2) % 2 == 1 for items in cfg["shows"] for it in items)
             and cfg["enc"] in IDENT2}
@@ -1794,7 +1861,7 @@ def shrink_doc(cfg):
         r = doc_compare(c)
         return r is not None and r != "outside"
     cur = json.loads(json.dumps(cfg))
-    for key, val in (("w", None), ("w2", None), ("dw", None), ("dw2", None), ("ttf", None), ("tu", None),
+    for key, val in (("second", None), ("w", None), ("w2", None), ("dw", None), ("dw2", None), ("ttf", None), ("tu", None),
                      ("tm", [1, 0, 0, 1, 0, 0]), ("fs", 10), ("enc_kind", "name")):
         if cur.get(key) != val:
             cand = dict(cur, **{key: val})
@@ -1816,7 +1883,8 @@ def check_doc(ctx: C.Ctx, b: Batch, cfg, do_shrink=True) -> None:
         "ttf" if cfg.get("ttf") else "none"
     ctx.case(("doc", json.dumps(cfg, sort_keys=True)), r != "outside",
              sample={"group": "doc", "enc": cfg["enc"], "tu": tu, "shows": cfg["shows"][:2]},
-             branch=f"doc:{kind}:{'v' if vertical else 'h'}:{tu}" + (":outside" if r == "outside" else ""))
+             branch=f"doc:{kind}:{'v' if vertical else 'h'}:{tu}" + (":two-fonts" if cfg.get("second") else "")
+             + (":outside" if r == "outside" else ""))
     if r is None or r == "outside":
         return
     small = shrink_doc(cfg) if do_shrink else cfg
